@@ -371,7 +371,7 @@ func lessOrEqualEvidence(c *Ctx) {
 	}
 	var lid, id *ssa.Parameter
 	for _, p := range fn.Params {
-		switch p.Name() {
+		switch ParamName(p) {
 		case "lid":
 			lid = p
 		case "id":
